@@ -610,6 +610,12 @@ var c15D5 = []c15Regress{
 		a:      []c15Op{{kind: "replicas", node: c15N(1), arg: 11}, {kind: "weight", node: c15N(11), arg: 1}},
 		b:      []c15Op{{kind: "replicas", node: c15N(11), arg: 1}, {kind: "replicas", node: c15N(1), arg: 11}},
 	},
+	{ // shrunk by rapid at VERIF_SEED=1 after the universe got its families: "111"+"0" == "11"+"10"
+		name:   "order-shrunk-2",
+		clause: "the mapping of keys to nodes depends only on the current set of nodes and their replica counts, not on the order in which nodes were added or removed",
+		a:      []c15Op{{kind: "replicas", node: c15N(111), arg: 1}, {kind: "add", node: c15N(11)}},
+		b:      []c15Op{{kind: "add", node: c15N(11)}, {kind: "replicas", node: c15N(111), arg: 1}},
+	},
 	{ // Remove walks all R names of the node and drops the neighbour's virtual nodes "110".."119" from the sorted list
 		name:   "remove-strips-neighbour",
 		clause: "removing a node changes the assignment only of keys that were assigned to it",
